@@ -92,12 +92,20 @@ def check_case(case, ctx=None):
     if not gfi.close(gfi.fval(wi), exp_w, gfi.score_tol(run_i)):
         raise Violation("closure-importance:weight", f"weight {gfi.fval(wi)!r} != {exp_w!r}", case)
     # assess
-    sc, rv = obj.assess(ti.get_choices(), call_args)
-    if not gfi.close(gfi.fval(sc), run_i.score(), gfi.score_tol(run_i)):
-        raise Violation("closure-assess:score", f"assess score {gfi.fval(sc)!r} != reference {run_i.score()!r}", case)
-    m = gfi.raw_equal(rv, run_i.retval, gfi.rtype(node), 1e-4)
-    if m:
-        raise Violation("closure-assess:retval", m, case)
+    try:
+        sc, rv = obj.assess(ti.get_choices(), call_args)
+    except Exception as e:
+        if type(e).__name__ == "MissingAddress" and gfi.has_empty_site(node, run_i):
+            sc = None  # assess does not accept samples that omit non-executed code (finding assess_empty_sample, C01/C02)
+            classes.append("assess:skipped-empty-site")
+        else:
+            raise
+    if sc is not None:
+        if not gfi.close(gfi.fval(sc), run_i.score(), gfi.score_tol(run_i)):
+            raise Violation("closure-assess:score", f"assess score {gfi.fval(sc)!r} != reference {run_i.score()!r}", case)
+        m = gfi.raw_equal(rv, run_i.retval, gfi.rtype(node), 1e-4)
+        if m:
+            raise Violation("closure-assess:retval", m, case)
     # edit / update through the wrapper with new extra arguments
     new_extra_vals = case["newextra"][len(stored): len(stored) + len(extra)]
     new_extra = tuple(jnp.asarray(a, dtype=jnp.float32) for a in new_extra_vals)
@@ -108,8 +116,7 @@ def check_case(case, ctx=None):
     uchm = gfi.build_chm(uasg, "or")
     ad = mk_argdiffs(new_extra, Diff.unknown_change)
     tu, wu, rd, bwd = obj.edit(k2, ti, Update(uchm), ad)
-    masg = dict(run_i.assignment())
-    masg.update(uasg)
+    masg = gfi_hist.model_after_update(node, run_i.assignment(), uasg)
     run_u, fresh = gfi.check_trace_against_model(tu, node, nnew, masg, "closure-edit:", case, Violation, allow_fresh=True)
     if not fresh:
         exp = run_u.score() - run_i.score()
